@@ -295,9 +295,10 @@ Print Assumptions C18_compile_objs_mixed_refuted.
      are left, or nothing was read and the container is one 00 octet: a container with a whole octet (or more)
      left over is rejected, for every type, container and continuation; the relaxed test (C18-9) accepts 00 00
      as NULL: witness;
-   - the OER reader as it is returns the inner decoder's value without comparing `consumed` with the container:
-     whatever it accepts is a PREFIX reading (partial); "the container is used up" is refuted by 02 00 00 under a
-     NULL row (finding C18-oer-open-type-leftover), and holds of the strict reader. ---------------- *)
+   - the OER reader compares the inner decoder's `consumed` with the container (C18-fix-9; finding
+     C18-oer-open-type-leftover, fixed): whatever it accepts used the container up, a container that is exactly one
+     encoding of the selected type is accepted, and one the type decodes from with octets left over is refused,
+     for every type and container (02 00 00 under a NULL row: refused). ---------------- *)
 
 Theorem C18_reference_resolves_exact : forall (ms : list name) (r : name) (i : nat), find_name ms r = Some i ->
   nth_error ms i = Some r /\ (forall j, (j < i)%nat -> nth_error ms j <> Some r).
@@ -394,17 +395,19 @@ Theorem C18_container_relaxed_refuted : exists (t : ty) (bytes : list Z) (v : va
 Proof. exact container_relaxed_refuted. Qed.
 Print Assumptions C18_container_relaxed_refuted.
 
-Theorem C18_oer_container_prefix_partial : forall (t : ty) (bs : list Z) (v : val) (r : list Z), oer_dec_open t bs = Some (v, r) ->
-  exists n c r0 left, oer_get_length bs = Some (n, r0) /\ take n r0 = Some (c, r) /\ oer_dec t c = Some (v, left).
-Proof. exact oer_open_prefix_partial. Qed.
-Print Assumptions C18_oer_container_prefix_partial.
-
-Theorem C18_oer_container_exhausted_refuted : exists (t : ty) (bs : list Z) (v : val),
-  oer_dec_open t bs = Some (v, []) /\ oer_dec_open_strict t bs = None.
-Proof. exact oer_open_exhausts_refuted. Qed.
-Print Assumptions C18_oer_container_exhausted_refuted.
-
-Theorem C18_oer_container_strict_exhausts : forall (t : ty) (bs : list Z) (v : val) (r : list Z), oer_dec_open_strict t bs = Some (v, r) ->
+Theorem C18_oer_container_exhausted : forall (t : ty) (bs : list Z) (v : val) (r : list Z), oer_dec_open t bs = Some (v, r) ->
   exists n c r0, oer_get_length bs = Some (n, r0) /\ take n r0 = Some (c, r) /\ oer_dec t c = Some (v, []).
-Proof. exact oer_open_strict_exhausts. Qed.
-Print Assumptions C18_oer_container_strict_exhausts.
+Proof. exact oer_open_exhausts. Qed.
+Print Assumptions C18_oer_container_exhausted.
+
+Theorem C18_oer_container_exact_accepted : forall (t : ty) (bs : list Z) (n : Z) (c r0 r : list Z) (v : val),
+  oer_get_length bs = Some (n, r0) -> take n r0 = Some (c, r) -> oer_dec t c = Some (v, []) ->
+  oer_dec_open t bs = Some (v, r).
+Proof. exact oer_open_accepts. Qed.
+Print Assumptions C18_oer_container_exact_accepted.
+
+Theorem C18_oer_container_leftover_rejected : forall (t : ty) (bs : list Z) (n : Z) (c r0 r : list Z) (v : val) (left : list Z),
+  oer_get_length bs = Some (n, r0) -> take n r0 = Some (c, r) -> oer_dec t c = Some (v, left) -> left <> [] ->
+  oer_dec_open t bs = None.
+Proof. exact oer_open_leftover_rejected. Qed.
+Print Assumptions C18_oer_container_leftover_rejected.
